@@ -262,6 +262,23 @@ def run(check):
         scripts = gen.make_scripts(steps, {})
         extra.append({"program": Program(steps, outs, gen.BASE_INPUT), "scripts": scripts, "input": {"tag": "T1"}, "shape": "pattern-typed-plugin-output/%s" % where, "outcome": {}, "pair": None, "drift": True,
                       "expect_out": "report", "expect_text": "^a+[0-9]{2}$"})
+    # loops over an empty list whose (empty) result list is referenced by an output, a step and a second loop
+    for j, where in enumerate(["output", "step-input", "second-loop", "output-whole"]):
+        loop = Step("loop", "foreach", sub=gen.sub_program("sub.yaml", 1), items=Expr(In("items")))
+        steps = [loop]
+        if where == "output":
+            outs = {"report": {"d": Expr(Ref("loop", "outputs", "success", "data"))}}
+        elif where == "output-whole":
+            outs = {"report": {"all": Expr(Ref("loop", "outputs", "success"))}}
+        elif where == "step-input":
+            steps.append(gen.plugin_step("b", Expr(In("tag")), extra_input={"a": Expr(Ref("loop", "outputs", "success", "data"))}))
+            outs = {"report": {"b": Expr(Ref("b", "outputs", "success"))}}
+        else:
+            steps.append(Step("again", "foreach", sub=Program([gen.plugin_step("w0", "lit", src="sub2_w0", extra_input={"a": Expr(In())})], {"success": {"x": Expr(Ref("w0", "outputs", "success", "tag"))}},
+                                                            InputSchema({"t": {"type": "string"}}, root="Got"), name="sub2.yaml"), items=Expr(Ref("loop", "outputs", "success", "data"))))
+            outs = {"report": {"d2": Expr(Ref("again", "outputs", "success", "data"))}}
+        extra.append({"program": Program(steps, outs, gen.BASE_INPUT), "scripts": gen.make_scripts(steps, {}), "input": {"tag": "T1", "items": []}, "shape": "empty-loop-result/%s" % where, "outcome": {}, "pair": None, "drift": True,
+                      "expect_out_if_accepted": "report"})
     # constants for `enabled` in every spelling the declared bool type accepts, on loop and plugin steps: what preparation and the
     # run loop's check of the stage input accept, the provider must understand
     for kind in ("loop", "plugin"):
